@@ -112,7 +112,7 @@ def analyse(sess, outs, strict_lockstep=False):
             props = {"hdr_gen": ["C14"], "hdr_read": ["C14"], "ext_new": ["C13"], "encap": ["C09"], "encap_ext": ["C09", "C13"],
                      "encap_frag": ["C09"], "preview": ["C09"], "frag_preview": ["C09"], "decap": ["C05"], "walk": ["C05"],
                      "peek": ["C05"], "prov": ["C05", "C17"], "reprov": ["C05", "C17"], "dec_newpdu": ["C05", "C17"],
-                     "mem_new_frag": ["C17", "C05"], "mem_take": ["C17", "C05"], "mem_save": ["C17", "C05"],
+                     "mem_new_frag": ["C17", "C05"], "mem_take": ["C17", "C05"], "mem_save": ["C17", "C05"], "mem_swap": ["C17"],
                      "mem_release": ["C17"], "crc": ["C12"]}.get(kind, ["*"])
             if kind in ("u_gen", "u_parse"):
                 if op.get("wf"):
@@ -438,6 +438,16 @@ def analyse(sess, outs, strict_lockstep=False):
                 owned.add(o.toks[1])
             check_conservation(i, o, created, owned, held, lost_by_contract, F)
             check_mem_state(i, o, ref_mem, F)
+        elif kind == "mem_swap":
+            # the caller keeps the storage of a held context and puts a fresh one in its place
+            if o.ok and op["h"] in held:
+                owned.add(held[op["h"]])
+                sid = str(nprov)
+                nprov += 1
+                created.add(sid)
+                held[op["h"]] = sid
+                if ref_mem is not None:
+                    ref_mem.setdefault("lens", {})[sid] = op["len"]
         elif kind in ("mem_new_frag", "mem_take", "mem_save"):
             ref_mem_op(i, op, o, ref_mem, held, lost_by_contract, trains, F)
             check_conservation(i, o, created, owned, held, lost_by_contract, F)
